@@ -40,8 +40,11 @@ def Derived (env : Env) (st : CState) : Prop :=
     st.comps = L.map (fromPos cp.length) ∧
     st.orig = ⟨d.before ++ cp ++ d.after, d.cur + cp.length⟩
 
+/-- where the completions of a menu come from: (a prefix of) the completer's stream for the
+    menu's original document; or that after `insert_common_part`; or
+    `start_history_lines_completion` for the original document -/
 def Provenance (env : Env) (st : CState) : Prop :=
-  st.comps <+: env.comp st.orig ∨ Derived env st
+  st.comps <+: env.comp st.orig ∨ Derived env st ∨ st.comps = histComps env.isSpace st.orig
 
 structure CsOK (env : Env) (s : St) (st : CState) : Prop where
   text_eq : st.newDoc = some s.doc
@@ -799,7 +802,7 @@ theorem compProceed_ok {s : St} (hb : BufOK cfg env s) {st : CState} (hcs : s.cs
       have hf1 := insertText_frame (cfg := cfg) s (commonSuffix doc st.comps)
       split
       · have hdoc : doc = s.doc := by rw [← ho]; exact orig_eq_doc hb hcs hidx
-        refine segDone_ok (setCompletions_buf hb1 _ (Or.inr ?_)) hf1.ext hf1.runV hf1.runS
+        refine segDone_ok (setCompletions_buf hb1 _ (Or.inr (Or.inl ?_))) hf1.ext hf1.runV hf1.runS
         refine ⟨doc, st.comps, commonSuffix doc st.comps, hp, rfl, hcp, rfl, ?_⟩
         subst hdoc
         simp [St.doc, Doc.before, Doc.after]
@@ -1159,6 +1162,67 @@ theorem resumeTask_inv {s : St} (h : Inv cfg env s) (hfix : cfg.fixD1 = true) (i
       (by show cntV (dropTask s i).tasks = b2n s.runV; unfold cntV; rw [← c2]; exact h.flags.v)
   · exact h
 
+theorem setCompletions_inv {s : St} (h : Inv cfg env s) (comps : List Completion)
+    (hp : Provenance env ⟨s.doc, comps, none, s.nextTok⟩) : Inv cfg env (setCompletions s comps) := by
+  refine ⟨setCompletions_buf h.buf comps hp, ?_, ⟨h.flags.c, h.flags.v, h.flags.s⟩⟩
+  intro m doc i tok hm
+  obtain ⟨hlt, _⟩ := h.task m doc i tok hm
+  refine ⟨by show tok < s.nextTok + 1; omega, ?_⟩
+  intro st hst htok
+  simp only [setCompletions, Option.some.injEq] at hst
+  subst hst
+  simp at htok; omega
+
+/-- `start_history_lines_completion` installs a *new* state object: a completer that is still
+    loading can no longer pass `proceed()` -/
+theorem histComplete_nav {s : St} (h : Inv cfg env s) :
+    Inv cfg env (histComplete cfg env s).1 ∧ (histComplete cfg env s).2 = false := by
+  unfold histComplete
+  have h1 := setCompletions_inv h (histComps env.isSpace s.doc) (Or.inr (Or.inr rfl))
+  have hcs : (setCompletions s (histComps env.isSpace s.doc)).cs =
+      some ⟨s.doc, histComps env.isSpace s.doc, none, s.nextTok⟩ := rfl
+  by_cases hn : histComps env.isSpace s.doc = []
+  · rw [goTo_ignored hcs hn]
+    have n := goTo_nav h1.buf hcs none (by intro j hj; cases hj)
+    exact ⟨inv_of_nav h1 n, n.noexc⟩
+  · have n := goTo_nav h1.buf hcs (some 0) (by
+      intro j hj; cases hj; exact List.length_pos_iff.mpr hn)
+    exact ⟨inv_of_nav h1 n, n.noexc⟩
+
+theorem cancelTask_inv {s : St} (h : Inv cfg env s) (i : Nat) : Inv cfg env (cancelTask s i) := by
+  unfold cancelTask
+  split
+  · rename_i t ht
+    have c1 := cnt_drop (p := isC) ht
+    have c2 := cnt_drop (p := isV) ht
+    have c3 := cnt_drop (p := isS) ht
+    cases t with
+    | cLoad m doc k tok =>
+      simp [isC, isV, isS] at c1 c2 c3
+      obtain ⟨_, hc0⟩ := b2n_ge_one (by rw [← h.flags.c]; exact c1.symm)
+      exact ⟨(dropTask_buf h.buf i).congr rfl rfl rfl rfl rfl rfl rfl, dropTask_task h.task i,
+        ⟨by show cntC (dropTask s i).tasks = b2n false; exact hc0,
+         by show cntV (dropTask s i).tasks = b2n s.runV; unfold cntV; rw [← c2]; exact h.flags.v,
+         by show cntS (dropTask s i).tasks = b2n s.runS; unfold cntS; rw [← c3]; exact h.flags.s⟩⟩
+    | vWait doc =>
+      simp [isC, isV, isS] at c1 c2 c3
+      obtain ⟨_, hc0⟩ := b2n_ge_one (by rw [← h.flags.v]; exact c2.symm)
+      exact ⟨(dropTask_buf h.buf i).congr rfl rfl rfl rfl rfl rfl rfl, dropTask_task h.task i,
+        ⟨by show cntC (dropTask s i).tasks = b2n s.runC; unfold cntC; rw [← c1]; exact h.flags.c,
+         by show cntV (dropTask s i).tasks = b2n false; exact hc0,
+         by show cntS (dropTask s i).tasks = b2n s.runS; unfold cntS; rw [← c3]; exact h.flags.s⟩⟩
+    | sWait doc =>
+      simp [isC, isV, isS] at c1 c2 c3
+      obtain ⟨_, hc0⟩ := b2n_ge_one (by rw [← h.flags.s]; exact c3.symm)
+      exact ⟨(dropTask_buf h.buf i).congr rfl rfl rfl rfl rfl rfl rfl, dropTask_task h.task i,
+        ⟨by show cntC (dropTask s i).tasks = b2n s.runC; unfold cntC; rw [← c1]; exact h.flags.c,
+         by show cntV (dropTask s i).tasks = b2n s.runV; unfold cntV; rw [← c2]; exact h.flags.v,
+         by show cntS (dropTask s i).tasks = b2n false; exact hc0⟩⟩
+    | cPend m => exact dropPending_inv h ht rfl
+    | vPend => exact dropPending_inv h ht rfl
+    | sPend => exact dropPending_inv h ht rfl
+  · exact h
+
 theorem step_inv {s : St} (h : Inv cfg env s) (hfix : cfg.fixD1 = true) (a : Act) :
     Inv cfg env (step cfg env s a).1 := by
   cases a with
@@ -1175,8 +1239,10 @@ theorem step_inv {s : St} (h : Inv cfg env s) (hfix : cfg.fixD1 = true) (a : Act
   | apply c => exact inv_of_nav h (apply_nav h.buf c)
   | validateSync => exact inv_of_frame h (validateSync_buf h.buf) (validateSync_frame s)
   | reset t c => exact inv_of_frame h (reset_buf h.buf t _ (Nat.min_le_right _ _)) (reset_frame s t _)
+  | histComplete => exact (histComplete_nav h).1
   | start i => exact startTask_inv h i
   | resume i => exact resumeTask_inv h hfix i
+  | kill i => exact cancelTask_inv h i
 
 theorem init_inv (d : Doc) (hd : d.WF) : Inv cfg env (init d) := by
   refine ⟨⟨hd, ?_, ?_, ?_, ?_⟩, ?_, ⟨rfl, rfl, rfl⟩⟩
